@@ -76,7 +76,8 @@ func (h *RetryHandler) ExecuteWithRetry(
 		}
 
 		attemptCount++
-		lastErr = h.executeProxyAttempt(ctx, w, r, endpoint, selector, stats, proxyFunc)
+		tracked := &responseStartTracker{ResponseWriter: w}
+		lastErr = h.executeProxyAttempt(ctx, tracked, r, endpoint, selector, stats, proxyFunc)
 
 		if lastErr == nil {
 			return nil
@@ -87,11 +88,46 @@ func (h *RetryHandler) ExecuteWithRetry(
 			return lastErr
 		}
 
+		if tracked.started {
+			// Part of this attempt's response has already been handed to the client;
+			// retrying would splice another backend's response onto it.
+			h.markEndpointUnhealthy(ctx, endpoint)
+			return lastErr
+		}
+
 		// Handle connection error and retry logic
 		availableEndpoints = h.handleConnectionFailure(ctx, endpoint, lastErr, attemptCount, availableEndpoints, maxRetries)
 	}
 
 	return h.buildFinalError(availableEndpoints, maxRetries, lastErr)
+}
+
+// responseStartTracker records whether an attempt has begun writing the client response.
+type responseStartTracker struct {
+	http.ResponseWriter
+	started bool
+}
+
+func (t *responseStartTracker) WriteHeader(statusCode int) {
+	t.started = true
+	t.ResponseWriter.WriteHeader(statusCode)
+}
+
+func (t *responseStartTracker) Write(b []byte) (int, error) {
+	t.started = true
+	return t.ResponseWriter.Write(b)
+}
+
+// Flush keeps http.Flusher available to callers that type-assert for it.
+func (t *responseStartTracker) Flush() {
+	if f, ok := t.ResponseWriter.(http.Flusher); ok {
+		f.Flush()
+	}
+}
+
+// Unwrap lets http.ResponseController reach the underlying writer.
+func (t *responseStartTracker) Unwrap() http.ResponseWriter {
+	return t.ResponseWriter
 }
 
 // preserveRequestBody reads and preserves request body for potential retries
